@@ -249,6 +249,18 @@ _W6 = {
     "C17": " Sixth-wave additions: requests to unit ids 0 and 255; a Shutdown context that has already expired.",
     "C19": " Sixth-wave additions: half of the network clients come from the protocol's own constructor (NewTCPClientWithConfig / NewRTUClientWithConfig) instead of NewClient with an observable parser.",
 }
+_W7 = {
+    "C07": " Seventh-wave additions: read timeouts reported as *net.OpError / *fs.PathError / %w-annotated errors; register values at which representations change or that resemble protocol bytes; transaction ids 0 and 65535; the application formats (logs) what it received.",
+    "C08": " Seventh-wave additions: wrapped timeout errors; serial read timeouts of 0, 50 ns, 1 us; endless floods that fill every read to the brim; a call that comes back only during teardown counts as not returned; floods crafted to fit a junk byte count behind eight genuine bytes (known finding mbap_length_ignored).",
+    "C11": " Seventh-wave additions: the application formats (logs) the response before looking coils up.",
+    "C12": " Seventh-wave additions: extensions made of line-idle bytes (0xFF / 0x00).",
+    "C13": " Seventh-wave additions: the application formats (logs) the response and the view between reads; special register values.",
+    "C14": " Seventh-wave additions: every mutex of the library is a simulated one (TryLock is a scheduling point and can fail); transports that report timeouts as *net.OpError or %w-annotated errors.",
+    "C15": " Seventh-wave additions: slow talkers (two pauses of 13-20 simulated seconds); write data that reads like a frame header; handler panics with error / runtime-error / uncomparable values.",
+    "C16": " Seventh-wave additions: seconds between the two pieces of a frame; handler panics with error / runtime-error / uncomparable values.",
+    "C17": " Seventh-wave additions: long sessions (action after 26-30 s, silent connections dropped by the idle limit first); listeners whose peers all report one remote address (callback oracles become totals); panics with uncomparable values.",
+    "C19": " Seventh-wave additions: hooks of a value type installed by value; wrapped timeout errors on all client kinds.",
+}
 for _k, _v in _W3.items():
     META[_k]["rule"] += _v
 for _k, _v in _W4.items():
@@ -256,4 +268,6 @@ for _k, _v in _W4.items():
 for _k, _v in _W5.items():
     META[_k]["rule"] += _v
 for _k, _v in _W6.items():
+    META[_k]["rule"] += _v
+for _k, _v in _W7.items():
     META[_k]["rule"] += _v
